@@ -107,6 +107,17 @@ def check(req):
         for need in ("content.xml", "styles.xml", "meta.xml", "settings.xml"):
             if need not in listed:
                 return fail("manifest_lacks_item", need)
+        # what the manifest lists must be there, and its picture entries are the package's asset table, no more and no less
+        for ent in listed:
+            if ent and not ent.endswith("/") and ent not in content and not ent.startswith("Pictures/"):
+                return fail("manifest_lists_absent_member", ent)
+        if not req.get("cli"):
+            pics = sorted(x for x in listed if x and x.startswith("Pictures/") and x != "Pictures/")
+            table = sorted("Pictures/" + a["path"] for a in assets)
+            if pics != table:
+                return fail("manifest_pictures_differ_from_asset_table", "manifest lists %r, asset table holds %r" % (pics[:4], table[:4]))
+            if len(set(listed)) != len(listed):
+                return fail("manifest_lists_entry_twice", repr(sorted(x for x in set(listed) if listed.count(x) > 1)[:3]))
         main = content["content.xml"]
         prefix = "Pictures/"
     elif fmt == FMT_TEXTPACK:
